@@ -289,6 +289,8 @@ TEMPLATES = [
     ("syscon password {}", ALL, "keep"),
     ("snmp-server user Someone Somegroup v3 auth sha {} priv aes 128 {}", ALL, "keep"),
     ("snmp-server user Someone Somegroup remote Crap v3 auth md5 {}", ALL, "keep"),
+    ("snmp-server user Someone Somegroup v3 priv aes 128 {} auth sha {}", ALL, "keep"),
+    ("snmp-server user Someone Somegroup v3 priv des {} auth md5 {}", ALL, "keep"),
     ("crypto isakmp key 6 {} hostname Something", ALL, "keep"),
     ("isakmp key {} address {ip}", NOT_NUM, "keep"),
     ("set session-key inbound ah 4294967295 {}", ALL, "keep"),
